@@ -10,15 +10,19 @@
 (* both the accepting and the refusing branch of every clause are reached. *)
 EXTENDS Sessions, TLC
 
-CONSTANTS Users, Passwords, NewPasswords, Clients0, MaxRemotes, Timeouts, MaxDepth, MaxSid
+CONSTANTS Users, Passwords, NewPasswords, Clients0, MaxRemotes, Timeouts, MaxDepth, MaxSid,
+          SimMode   \* TRUE only in the stimulus-generation cfg (MC_SessionsSim.cfg)
 
-VARIABLE viol
-mvars == <<svars, viol>>
+VARIABLES
+    viol,   \* clauses broken by some step of the design so far
+    last    \* SimMode only: the step counter and last event, so that refused attempts are not stuttering steps
+            \* (TLC's simulator drops those) and every parameter choice is a distinct successor
+mvars == <<svars, viol, last>>
 
 AllOn == [c \in Clients0 |-> TRUE]
 
 Init ==
-    /\ viol = {}
+    /\ viol = {} /\ last = <<0>>
     /\ \E mr \in MaxRemotes, to \in Timeouts :
          SessInit(mr, to, [u \in {"admin"} |-> [pw |-> "p", disabled |-> FALSE, admin |-> TRUE]],
                   Clients0, TRUE, TRUE, AllOn, AllOn)
@@ -26,7 +30,16 @@ Init ==
 Ev(name) == [name |-> name, c |-> "", u |-> "", p |-> "", np |-> "", adm |-> FALSE, ok |-> FALSE,
              exec |-> FALSE, sid |-> 0, node |-> "", post |-> Here]
 
-Take(e) == Do(e) /\ viol' = viol \cup Failing(e)
+\* SimMode only: thin out the refused attempts and the power-down events so that the random walks spend
+\* most of their steps where sessions exist (no effect on the exhaustive run)
+RefGate == ~SimMode \/ last[1] % 3 = 0
+OffGate == ~SimMode \/ last[1] % 4 = 0
+ChgGate == ~SimMode \/ last[1] % 3 = 1
+
+Take(e) ==
+    /\ Do(e)
+    /\ viol' = viol \cup Failing(e)
+    /\ last' = IF SimMode THEN <<last[1] + 1, e.name, e.c, e.u, e.p, e.np, e.adm, e.sid, e.node>> ELSE last
 
 \* client c and the server can exchange frames / their terminals work
 Reach(c) == srvOn /\ cliOn[c]
@@ -41,7 +54,7 @@ DoAdd(u, pw, adm) ==
         U2 == IF ok THEN ExtendUsers(u, [pw |-> pw, disabled |-> FALSE, admin |-> adm]) ELSE users
     IN  Take([Ev("AddUser") EXCEPT !.u = u, !.p = pw, !.adm = adm, !.ok = ok, !.post = [Here EXCEPT !.users = U2]])
 MAddUser(u, pw, adm)    == AddOK(u) /\ DoAdd(u, pw, adm)
-MAddUserNo(u, pw, adm)  == ~AddOK(u) /\ DoAdd(u, pw, adm)
+MAddUserNo(u, pw, adm)  == RefGate /\ ~AddOK(u) /\ DoAdd(u, pw, adm)
 
 DisableOK(u) == srvOn /\ u \in DOMAIN users /\ ~users[u].disabled /\ EnabledAdmins(users) # {u}
 DoDisable(u) ==
@@ -49,7 +62,7 @@ DoDisable(u) ==
         U2 == IF ok THEN [users EXCEPT ![u].disabled = TRUE] ELSE users
     IN  Take([Ev("DisableUser") EXCEPT !.u = u, !.ok = ok, !.post = [Here EXCEPT !.users = U2]])
 MDisableUser(u)   == DisableOK(u) /\ DoDisable(u)
-MDisableUserNo(u) == ~DisableOK(u) /\ DoDisable(u)
+MDisableUserNo(u) == RefGate /\ ~DisableOK(u) /\ DoDisable(u)
 
 ChangeOK(u, cur) == srvOn /\ u \in DOMAIN users /\ users[u].pw = cur
 DoChange(u, cur, new) ==
@@ -61,8 +74,8 @@ DoChange(u, cur, new) ==
                                     !.local = IF local = u THEN "" ELSE local]
              ELSE Here
     IN  Take([Ev("ChangePassword") EXCEPT !.u = u, !.p = cur, !.np = new, !.ok = ok, !.post = P])
-MChangePassword(u, cur, new)   == ChangeOK(u, cur) /\ DoChange(u, cur, new)
-MChangePasswordNo(u, cur, new) == ~ChangeOK(u, cur) /\ DoChange(u, cur, new)
+MChangePassword(u, cur, new)   == ChgGate /\ ChangeOK(u, cur) /\ DoChange(u, cur, new)
+MChangePasswordNo(u, cur, new) == RefGate /\ ~ChangeOK(u, cur) /\ DoChange(u, cur, new)
 
 (* ---- logins ---- *)
 LocalOK(u, p) == srvOn /\ srvTerm /\ Valid(u, p)
@@ -71,7 +84,7 @@ DoLocal(u, p) ==
     IN  Take([Ev("LocalLogin") EXCEPT !.u = u, !.p = p, !.ok = ok, !.exec = ok,
                                       !.post = IF ok THEN [Here EXCEPT !.local = u] ELSE Here])
 MLocalLogin(u, p)   == LocalOK(u, p) /\ DoLocal(u, p)
-MLocalLoginNo(u, p) == ~LocalOK(u, p) /\ DoLocal(u, p)
+MLocalLoginNo(u, p) == RefGate /\ ~LocalOK(u, p) /\ DoLocal(u, p)
 
 RemoteOK(c, u, p) == Reach(c) /\ Terms(c) /\ Valid(u, p) /\ Cardinality(remote) < maxRemote
 DoRemote(c, u, p) ==
@@ -82,7 +95,7 @@ DoRemote(c, u, p) ==
              ELSE Here
     IN  Take([Ev("RemoteLogin") EXCEPT !.c = c, !.u = u, !.p = p, !.ok = ok, !.post = P])
 MRemoteLogin(c, u, p)   == RemoteOK(c, u, p) /\ DoRemote(c, u, p)
-MRemoteLoginNo(c, u, p) == ~RemoteOK(c, u, p) /\ DoRemote(c, u, p)
+MRemoteLoginNo(c, u, p) == RefGate /\ ~RemoteOK(c, u, p) /\ DoRemote(c, u, p)
 
 (* ---- remote terminal ---- *)
 Handles(c) == IF conn[c] = {} THEN {0} ELSE conn[c]
@@ -90,11 +103,13 @@ ExecOK(c, s) == s # 0 /\ s \in Sids(remote) /\ Reach(c) /\ Terms(c)
 DoCommand(c, s) ==
     LET ex == ExecOK(c, s)
         \* a reachable server tells the client that the session is gone: the client drops the handle
-        P == IF ~ex /\ s # 0 /\ s \notin Sids(remote) /\ Reach(c) /\ Terms(c)
+        P == IF s # 0 /\ s \notin Sids(remote) /\ Reach(c) /\ Terms(c)
              THEN [Here EXCEPT !.conn = [conn EXCEPT ![c] = @ \ {s}]] ELSE Here
     IN  Take([Ev("RemoteCommand") EXCEPT !.c = c, !.sid = s, !.ok = ex, !.exec = ex, !.post = P])
 MRemoteCommand(c, s)   == s \in Handles(c) /\ ExecOK(c, s) /\ DoCommand(c, s)
-MRemoteCommandNo(c, s) == s \in Handles(c) /\ ~ExecOK(c, s) /\ DoCommand(c, s)
+Stale(c, s) == s # 0 /\ s \notin Sids(remote) /\ Reach(c) /\ Terms(c)
+MRemoteCommandStale(c, s) == s \in Handles(c) /\ Stale(c, s) /\ DoCommand(c, s)
+MRemoteCommandNo(c, s)    == RefGate /\ s \in Handles(c) /\ ~ExecOK(c, s) /\ ~Stale(c, s) /\ DoCommand(c, s)
 
 LogoffOK(c, s) == s # 0 /\ cliOn[c] /\ cliTerm[c]
 DoLogoff(c, s) ==
@@ -104,7 +119,7 @@ DoLogoff(c, s) ==
              ELSE Here
     IN  Take([Ev("Logoff") EXCEPT !.c = c, !.sid = s, !.ok = ok, !.post = P])
 MLogoff(c, s)   == s \in Handles(c) /\ LogoffOK(c, s) /\ DoLogoff(c, s)
-MLogoffNo(c, s) == s \in Handles(c) /\ ~LogoffOK(c, s) /\ DoLogoff(c, s)
+MLogoffNo(c, s) == RefGate /\ s \in Handles(c) /\ ~LogoffOK(c, s) /\ DoLogoff(c, s)
 
 (* ---- time ---- *)
 TimedOut == {r \in remote : r.idle + 1 >= timeout}
@@ -120,27 +135,65 @@ TermUp(n) == IF n = "srv" THEN srvTerm ELSE cliTerm[n]
 WithFlags(n, on, term) ==
     IF n = "srv" THEN [Here EXCEPT !.srvOn = on, !.srvTerm = term]
     ELSE [Here EXCEPT !.cliOn = [cliOn EXCEPT ![n] = on], !.cliTerm = [cliTerm EXCEPT ![n] = term]]
-PowerEv(name, n, ok, P) == Take([Ev(name) EXCEPT !.node = n, !.ok = ok, !.post = IF ok THEN P ELSE Here])
+PowerEv(name, n, ok, P) == Take([Ev(name) EXCEPT !.node = n, !.ok = ok, !.post = P])
 
 \* a node that goes down stops its services, a node that comes up starts them
-MNodeOff(n)      == n \in Nodes /\ PowerEv("NodeOff", n, IsOn(n), WithFlags(n, FALSE, FALSE))
-MNodeOn(n)       == n \in Nodes /\ PowerEv("NodeOn", n, ~IsOn(n), WithFlags(n, TRUE, TRUE))
-MServiceStop(n)  == n \in Nodes /\ PowerEv("ServiceStop", n, IsOn(n) /\ TermUp(n), WithFlags(n, TRUE, FALSE))
-MServiceStart(n) == n \in Nodes /\ PowerEv("ServiceStart", n, IsOn(n) /\ ~TermUp(n), WithFlags(n, TRUE, TRUE))
+OffOK(n)   == IsOn(n)
+OnOK(n)    == ~IsOn(n)
+StopOK(n)  == IsOn(n) /\ TermUp(n)
+StartOK(n) == IsOn(n) /\ ~TermUp(n)
+MNodeOff(n)        == OffGate /\ n \in Nodes /\ OffOK(n) /\ PowerEv("NodeOff", n, TRUE, WithFlags(n, FALSE, FALSE))
+MNodeOn(n)         == n \in Nodes /\ OnOK(n) /\ PowerEv("NodeOn", n, TRUE, WithFlags(n, TRUE, TRUE))
+MServiceStop(n)    == OffGate /\ n \in Nodes /\ StopOK(n) /\ PowerEv("ServiceStop", n, TRUE, WithFlags(n, TRUE, FALSE))
+MServiceStart(n)   == n \in Nodes /\ StartOK(n) /\ PowerEv("ServiceStart", n, TRUE, WithFlags(n, TRUE, TRUE))
+MNodeOffNo(n)      == RefGate /\ n \in Nodes /\ ~OffOK(n) /\ PowerEv("NodeOff", n, FALSE, Here)
+MNodeOnNo(n)       == RefGate /\ n \in Nodes /\ ~OnOK(n) /\ PowerEv("NodeOn", n, FALSE, Here)
+MServiceStopNo(n)  == RefGate /\ n \in Nodes /\ ~StopOK(n) /\ PowerEv("ServiceStop", n, FALSE, Here)
+MServiceStartNo(n) == RefGate /\ n \in Nodes /\ ~StartOK(n) /\ PowerEv("ServiceStart", n, FALSE, Here)
 
+\* steps that change the design's state (a refused request, a refused login and a refused logoff change
+\* nothing, a command that is not executed may cost the client its stale handle)
 Next ==
-    \/ \E u \in Users, pw \in NewPasswords, adm \in BOOLEAN : MAddUser(u, pw, adm) \/ MAddUserNo(u, pw, adm)
-    \/ \E u \in Users : MDisableUser(u) \/ MDisableUserNo(u)
-    \/ \E u \in Users, cur \in Passwords, new \in NewPasswords :
-           MChangePassword(u, cur, new) \/ MChangePasswordNo(u, cur, new)
-    \/ \E u \in Users, p \in Passwords : MLocalLogin(u, p) \/ MLocalLoginNo(u, p)
-    \/ \E c \in Clients0, u \in Users, p \in Passwords : MRemoteLogin(c, u, p) \/ MRemoteLoginNo(c, u, p)
-    \/ \E c \in Clients0, s \in 0..MaxSid : MRemoteCommand(c, s) \/ MRemoteCommandNo(c, s)
-    \/ \E c \in Clients0, s \in 0..MaxSid : MLogoff(c, s) \/ MLogoffNo(c, s)
+    \/ \E u \in Users, pw \in NewPasswords, adm \in BOOLEAN : MAddUser(u, pw, adm)
+    \/ \E u \in Users : MDisableUser(u)
+    \/ \E u \in Users, cur \in Passwords, new \in NewPasswords : MChangePassword(u, cur, new)
+    \/ \E u \in Users, p \in Passwords : MLocalLogin(u, p)
+    \/ \E c \in Clients0, u \in Users, p \in Passwords : MRemoteLogin(c, u, p)
+    \/ \E c \in Clients0, s \in 0..MaxSid : MRemoteCommand(c, s) \/ MRemoteCommandStale(c, s)
+    \/ \E c \in Clients0, s \in 0..MaxSid : MLogoff(c, s)
     \/ MTick \/ MTickTimeout
     \/ \E n \in Nodes : MNodeOff(n) \/ MNodeOn(n) \/ MServiceStop(n) \/ MServiceStart(n)
 
+\* the refused attempts (wrong credentials, missing / disabled accounts, limit reached, unreachable or
+\* stopped ends): stuttering steps of the design, taken in the exhaustive run only to evaluate the clauses
+\* on them, and in the simulation runs as stimuli for the implementation
+Refusals ==
+    \/ \E u \in Users, pw \in NewPasswords, adm \in BOOLEAN : MAddUserNo(u, pw, adm)
+    \/ \E u \in Users : MDisableUserNo(u)
+    \/ \E u \in Users, cur \in Passwords, new \in NewPasswords : MChangePasswordNo(u, cur, new)
+    \/ \E u \in Users, p \in Passwords : MLocalLoginNo(u, p)
+    \/ \E c \in Clients0, u \in Users, p \in Passwords : MRemoteLoginNo(c, u, p)
+    \/ \E c \in Clients0, s \in 0..MaxSid : MRemoteCommandNo(c, s) \/ MLogoffNo(c, s)
+    \/ \E n \in Nodes : MNodeOffNo(n) \/ MNodeOnNo(n) \/ MServiceStopNo(n) \/ MServiceStartNo(n)
+
+NextAll == Next \/ Refusals
+
+\* stimulus generation: TLC's simulator picks an enabled disjunct uniformly, so the disjuncts that the
+\* property is about (ticks up to and past the time-out, commands, coming back up) are listed several times
+NextSim ==
+    \/ NextAll
+    \/ MTick \/ MTickTimeout
+    \/ MTick \/ MTickTimeout
+    \/ MTick \/ MTickTimeout
+    \/ \E c \in Clients0, s \in 0..MaxSid : MRemoteCommand(c, s) \/ MRemoteCommandStale(c, s) \/ MRemoteCommandNo(c, s)
+    \/ \E c \in Clients0, s \in 0..MaxSid : MRemoteCommand(c, s) \/ MRemoteCommandStale(c, s) \/ MRemoteCommandNo(c, s)
+    \/ \E c \in Clients0, u \in Users, p \in Passwords : MRemoteLogin(c, u, p)
+    \/ \E c \in Clients0, u \in Users, p \in Passwords : MRemoteLogin(c, u, p)
+    \/ \E n \in Nodes : MNodeOn(n) \/ MServiceStart(n)
+    \/ \E n \in Nodes : MNodeOn(n) \/ MServiceStart(n)
+
 Spec == Init /\ [][Next]_mvars
+SimSpec == Init /\ [][NextSim]_mvars
 
 Bound == TLCGet("level") <= MaxDepth /\ nsid <= MaxSid
 
